@@ -345,7 +345,9 @@ def validate(ctx, recs, tag):
             raise vlib.MachineryError("TLC validation of %s failed (rc=%s)\n%s" % (f, r["rc"], r["out"][-4000:]))
         ctx.states += r["states"]
         ctx.transitions += r["transitions"]
-        for m in re.finditer(r'<<"BAD", (\d+), <<"([^"]*)", "([^"]*)">>>>', r["out"]):
+        found = list(re.finditer(r'<<"BAD", (\d+), <<"([^"]*)", "([^"]*)">>>>', r["out"]))
+        vlib.expect_bad(r, len(found), "C17Trace")
+        for m in found:
             bad[int(m.group(1))] = (m.group(2), m.group(3))
         n += got[0]
         os.remove(f)
